@@ -100,31 +100,62 @@ let scenario ts =
 (* a run of several tests with the MockSupportPlugin installed: ":T step*" per test; step = mock operation | ":ok" (a check of the
    test's own that passes) | ":bad" (one that fails).  Observation: ":run n (own total obs)*" *)
 let is_run ts = (match ts with ":T" :: _ -> true | _ -> false)
+(* a run whose tests have a teardown section: ":T step* [:D (:chk | :clr | :s n :chk | :s n :clr)*]" *)
+let is_runt ts = List.mem ":D" ts
 let rec steps c =
-  if at_end c || peek c = Some ":T" then [] else
+  if at_end c || peek c = Some ":T" || peek c = Some ":D" then [] else
   let s = (match peek c with
     | Some ":ok" -> ignore (next c); TCheck true
     | Some ":bad" -> ignore (next c); TCheck false
     | _ -> TOp (sop c)) in
   s :: steps c
+let rec tdsteps c = if at_end c || peek c = Some ":T" then [] else let o = sop c in o :: tdsteps c
 let rec tests c =
   if at_end c then [] else begin
     (if next c <> ":T" then raise (Bad "expected :T"));
-    let t = steps c in t :: tests c
+    let t = steps c in
+    (if peek c = Some ":D" then raise (Bad "teardown in a run without teardowns"));
+    t :: tests c
+  end
+let rec ttests c =
+  if at_end c then [] else begin
+    (if next c <> ":T" then raise (Bad "expected :T"));
+    let b = steps c in
+    let td = (if peek c = Some ":D" then (ignore (next c); tdsteps c) else []) in
+    { tt_body = b; tt_td = td } :: ttests c
   end
 let run_scenario ts =
   let r = tests { rest = ts } in
   if not (valid_run r) then raise (Bad "invalid run (value out of range / :post inside a test)") else r
+let runt_scenario ts =
+  let r = ttests { rest = ts } in
+  if not (valid_runt r) then raise (Bad "invalid run (value out of range / :post inside a test / teardown not made of :chk and :clr)") else r
 let ptobs o = String.concat " " [pbool o.to_own; pn o.to_total; pobs o.to_obs]
 let pruns l = String.concat " " (":run" :: Printf.sprintf "%x" (List.length l) :: List.map ptobs l)
+let pxobs o = String.concat " " ([pbool o.x_own; pn o.x_total; Printf.sprintf "%x" (List.length o.x_td)]
+                                 @ List.map (fun (j, fl) -> pn j ^ " " ^ pfailure fl) o.x_td @ [pobs o.x_obs])
+let prunt l = String.concat " " (":runt" :: Printf.sprintf "%x" (List.length l) :: List.map pxobs l)
 let runs_of os =
   let c = { rest = os } in
   (if next c <> ":run" then raise (Bad "expected :run"));
   let l = counted c (fun c -> let own = bool_tok (next c) in let total = n_tok (next c) in let o = obs_cur c in
                               { to_obs = o; to_own = own; to_total = total }) in
   if not (at_end c) then raise (Bad "trailing tokens") else l
+let runt_of os =
+  let c = { rest = os } in
+  (if next c <> ":runt" then raise (Bad "expected :runt"));
+  let l = counted c (fun c -> let own = bool_tok (next c) in let total = n_tok (next c) in
+                              let td = counted c (fun c -> let j = n_tok (next c) in let k = kind_of c in let u = pairs c in let f = pairs c in
+                                                           (j, { f_kind = k; f_unf = u; f_ful = f })) in
+                              let o = obs_cur c in
+                              { x_obs = o; x_own = own; x_td = td; x_total = total }) in
+  if not (at_end c) then raise (Bad "trailing tokens") else l
 let run_line ts =
-  if is_run ts then
+  if is_runt ts then
+    prunt (match Sys.getenv_opt "C08_REPORTER" with
+           | Some "always" -> runs_t_gen rep_always plugin_post (runt_scenario ts)
+           | _ -> runs_t (runt_scenario ts))
+  else if is_run ts then
     pruns (match Sys.getenv_opt "C08_PLUGIN" with
            | Some "runwide" -> runs_gen plugin_runwide (run_scenario ts)
            | Some "always" -> runs_gen plugin_always (run_scenario ts)
@@ -138,8 +169,17 @@ let judged_ops o =
    | None -> (match post_to_check o with
               | Some ops' -> (match parsew ops' with Some k -> judgedw k | None -> false)
               | None -> false))
+let judged_ttest t =
+  own_fails t.tt_body ||
+  (match t.tt_td with
+   | [] -> judged_ops (ops_before t.tt_body @ [(N0, OPost)])
+   | (N0, OCheck) :: _ -> judged_ops (ops_before t.tt_body @ [(N0, OCheck)])
+   | _ -> false)
 let spec_line ts os =
-  if is_run ts then
+  if is_runt ts then
+    (if Sys.getenv_opt "C08_JUDGED" <> None then List.for_all judged_ttest (runt_scenario ts)
+     else spec_runt (runt_scenario ts) (runt_of os))
+  else if is_run ts then
     (if Sys.getenv_opt "C08_JUDGED" <> None then
        List.for_all (fun t -> own_fails t || judged_ops (ops_before t @ [(N0, OPost)])) (run_scenario ts)
      else spec_run (run_scenario ts) (runs_of os))
